@@ -167,6 +167,15 @@ func (x *c18Tree) stmt(s bn.Stmt) bn.Stmt {
 
 var c18FreshLatin = []string{"zq", "renamed", "Alt", "v_", "_u", "nm"}
 
+// Names that published collision lists give for the hash functions a symbol table is usually keyed by (pairs
+// stand next to each other): 32-bit FNV-1 / FNV-1a, Java's 31-polynomial, djb2, CRC-32, and two Bangla pairs for
+// FNV-1a.  Different names are different variables, whatever they hash to — a dictionary of hostile constants,
+// which can only speak about the hash functions it knows.
+var c18Collisions = []string{"costarring", "liquid", "declinate", "macallums", "altarage", "zinke", "altarages", "zinkes",
+	"Aa", "BB", "AaAa", "BBBB", "AaBB", "BBAa", "hetairas", "mentioner", "heliotropes", "neurospora", "depravement", "serafins", "stylist", "subgenera",
+	"joyful", "synaphea", "redescribed", "urites", "dram", "vivency", "plumless", "buckeroo", "codding", "gnu", "exhibiters", "schlager",
+	"মেসো", "ফিশিমি", "পটা", "জমালি"}
+
 // (the second half are names that NFC would rewrite — precomposed letters excluded from composition — and
 // their decomposed spellings: names are used as written, never normalised)
 var c18FreshBangla = []string{"নতুন", "চলক", "মান_", "ক্ষ", "সম\u09df", "ব\u09dc", "গা\u09dd", "সম\u09af\u09bc", "ব\u09a1\u09bc", "\u09df", "ক\u09c7\u09be", "ক\u09cb"}
@@ -220,12 +229,16 @@ func transformTokens(rt *rapid.T, toks []bn.Tok, doDigits, doSyn, doRename, doLa
 				used[t.Text] = true
 			}
 		}
+		collide := rapid.IntRange(0, 5).Draw(rt, "collidingNames") == 0
+		at := 2 * rapid.IntRange(0, len(c18Collisions)/2-1).Draw(rt, "collisionPair")
 		for i, n := range names {
-			if rapid.IntRange(0, 3).Draw(rt, "renameThis") == 0 {
+			if !collide && rapid.IntRange(0, 3).Draw(rt, "renameThis") == 0 {
 				continue
 			}
 			var fresh string
-			if rapid.Bool().Draw(rt, "bangla") {
+			if collide {
+				fresh = c18Collisions[(at+i)%len(c18Collisions)]
+			} else if rapid.Bool().Draw(rt, "bangla") {
 				fresh = fmt.Sprintf("%s_%d", c18FreshBangla[rapid.IntRange(0, len(c18FreshBangla)-1).Draw(rt, "fb")], i)
 			} else {
 				fresh = fmt.Sprintf("%s_%d", c18FreshLatin[rapid.IntRange(0, len(c18FreshLatin)-1).Draw(rt, "fl")], i)
